@@ -350,6 +350,36 @@ class Program:
         cache[qual] = res
         return res
 
+    def namedtuple_fields(self, qual: str | None) -> list[str] | None:
+        """Field names, in order, of a package class derived from typing.NamedTuple (None for anything else)."""
+        if not qual:
+            return None
+        cache = self.__dict__.setdefault("_nt_cache", {})
+        if qual in cache:
+            return cache[qual]
+        res = None
+        q = self.chase(qual)
+        mod, _, name = q.rpartition(".")
+        m = self.modules.get(mod)
+        d = m.defs.get(name) if m is not None else None
+        if isinstance(d, ast.ClassDef) and any(self.resolve(m, b) in ("typing.NamedTuple", "typing_extensions.NamedTuple") for b in d.bases):
+            res = [st.target.id for st in d.body if isinstance(st, ast.AnnAssign) and isinstance(st.target, ast.Name)]
+        cache[qual] = res
+        return res
+
+    def returned_namedtuple(self, func_qual: str) -> list[str] | None:
+        """Fields of the NamedTuple class a package function is annotated to return."""
+        r = self.find_func(func_qual)
+        if r is None or r.node.returns is None:
+            return None
+        ann = r.node.returns
+        if isinstance(ann, ast.Constant) and isinstance(ann.value, str):
+            try:
+                ann = ast.parse(ann.value, mode="eval").body
+            except SyntaxError:
+                return None
+        return self.namedtuple_fields(self.resolve(r.module, ann)) if isinstance(ann, (ast.Name, ast.Attribute)) else None
+
     def inlinable(self, ref: "FuncRef") -> bool:
         """A package function that NO rule knows by name (its name occurs nowhere in the rule sources), is not a generator and is short:
         the term layer reads such helpers through.  The vocabulary is computed once from the text of icgsa/rules and icgsa/bounds_domain."""
@@ -601,13 +631,43 @@ def _literal_iter(expr: ast.expr, env: dict[str, object]) -> list[object]:
                 raise ValueError("** inside literal items()")
             items.append((_fold(k, env), v))
         return items
+    if isinstance(expr, ast.Name) and isinstance(env.get("__module__"), Module):
+        # a module-level tuple / list literal named once (_SAM_APX_REPETITIONS = (1, 10, 100, 1000))
+        m = env["__module__"]
+        v = m.assigns.get(expr.id)
+        if isinstance(v, (ast.Tuple, ast.List)) and expr.id not in {n for n in env if n != "__module__"}:
+            return _literal_iter(v, env)
     raise ValueError(f"not a literal iterable: {src(expr)}")
 
 
 def expand_dict(expr: ast.expr, module: Module, env: dict[str, object] | None = None) -> list[RegistryEntry]:
     """Entries of a dict display, expanding ``**{k: v for ... in <literal>}`` statically."""
     env = dict(env or {})
+    env.setdefault("__module__", module)
     out: list[RegistryEntry] = []
+    # dict(zip(NAMES, VALUES)) over literal sequences (given in place or named at module level)
+    if isinstance(expr, ast.Call) and isinstance(expr.func, ast.Name) and expr.func.id == "dict" and len(expr.args) == 1 and not expr.keywords \
+            and isinstance(expr.args[0], ast.Call) and isinstance(expr.args[0].func, ast.Name) and expr.args[0].func.id == "zip" \
+            and len(expr.args[0].args) == 2 and not expr.args[0].keywords:
+        def seq(e):
+            if isinstance(e, ast.Name) and isinstance(module.assigns.get(e.id), (ast.Tuple, ast.List)):
+                e = module.assigns[e.id]
+            if isinstance(e, (ast.Tuple, ast.List)):
+                return list(e.elts)
+            raise AnalysisError(f"registry built from a non-literal sequence: {src(e)[:60]}")
+        ks, vs = seq(expr.args[0].args[0]), seq(expr.args[0].args[1])
+        for k, v in zip(ks, vs):
+            try:
+                key = _fold(k, env)
+            except ValueError:
+                raise AnalysisError(f"registry key is not statically known: {src(k)}")
+            out.append(RegistryEntry(key, v, module, dict(env), k))
+        return out
+    if isinstance(expr, (ast.GeneratorExp, ast.ListComp)) and isinstance(expr.elt, ast.Tuple) and len(expr.elt.elts) == 2:
+        # an iterable of (key, value) pairs, as accepted by dict(...) and dict.update(...)
+        dc = ast.DictComp(key=expr.elt.elts[0], value=expr.elt.elts[1], generators=expr.generators)
+        ast.copy_location(dc, expr)
+        return expand_dict(dc, module, env)
     if isinstance(expr, ast.Dict):
         for k, v in zip(expr.keys, expr.values):
             if k is None:
@@ -662,7 +722,50 @@ def registry(prog: Program, qual: str) -> list[RegistryEntry]:
     if gv is None:
         raise AnchorMissing(f"registry {qual} not found")
     module, expr = gv
-    return expand_dict(expr, module)
+    entries = expand_dict(expr, module)
+    # growth of the registry at import time, after its definition: R.update({...} | pairs), R[k] = v, `for x in <literal>: R[k(x)] = v(x)`
+    name = (qual if qual.startswith(PKG) else f"{PKG}.{qual}").rpartition(".")[2]
+    definition = module.assign_nodes.get(name)
+    after = False
+    for st in module.tree.body:
+        if st is definition:
+            after = True
+            continue
+        if not after:
+            continue
+
+        def is_reg(e) -> bool:
+            return isinstance(e, ast.Name) and e.id == name
+        if isinstance(st, ast.Expr) and isinstance(st.value, ast.Call) and isinstance(st.value.func, ast.Attribute) and st.value.func.attr == "update" \
+                and is_reg(st.value.func.value):
+            if len(st.value.args) == 1 and not st.value.keywords:
+                entries.extend(expand_dict(st.value.args[0], module))
+            else:
+                raise AnalysisError(f"registry {name} grown by an update() that is not statically known ({module.rel()}:{st.lineno})")
+        elif isinstance(st, ast.Assign) and len(st.targets) == 1 and isinstance(st.targets[0], ast.Subscript) and is_reg(st.targets[0].value):
+            d = ast.Dict(keys=[st.targets[0].slice], values=[st.value])
+            ast.copy_location(d, st)
+            entries.extend(expand_dict(d, module))
+        elif isinstance(st, ast.For) and not st.orelse and len(st.body) == 1 and isinstance(st.body[0], ast.Assign) and len(st.body[0].targets) == 1 \
+                and isinstance(st.body[0].targets[0], ast.Subscript) and is_reg(st.body[0].targets[0].value):
+            dc = ast.DictComp(key=st.body[0].targets[0].slice, value=st.body[0].value,
+                              generators=[ast.comprehension(target=st.target, iter=st.iter, ifs=[], is_async=0)])
+            ast.copy_location(dc, st)
+            entries.extend(expand_dict(dc, module))
+        elif any(is_reg(n) and isinstance(n.ctx, (ast.Store, ast.Del)) for n in ast.walk(st)) or \
+                any(isinstance(n, ast.Call) and isinstance(n.func, ast.Attribute) and is_reg(n.func.value)
+                    and n.func.attr in ("update", "pop", "popitem", "clear", "setdefault", "__setitem__", "__delitem__") for n in ast.walk(st)):
+            raise AnalysisError(f"registry {name} is modified at import time in a way that is not statically known ({module.rel()}:{st.lineno})")
+    # later entries replace earlier ones with the same key (dict semantics), keeping the first position
+    seen: dict[object, int] = {}
+    out: list[RegistryEntry] = []
+    for e in entries:
+        if e.key in seen and definition is not None and e.node.lineno > getattr(definition, "end_lineno", 0):
+            out[seen[e.key]] = e
+        else:
+            seen.setdefault(e.key, len(out))
+            out.append(e)
+    return out
 
 
 def unwrap_partial(prog: Program, module: Module, expr: ast.expr, env: dict[str, object] | None = None,
